@@ -11,6 +11,7 @@ use dht::verif as v;
 use dht::PutRequestSpecific;
 use serde_json::{json, Value};
 use std::collections::HashMap;
+use std::net::SocketAddrV4;
 
 struct Universe {
     ents: Vec<Ent>,
@@ -53,6 +54,10 @@ pub fn one_lookup(net: &mut Net, b: u64, n: usize, kind: &str, target: [u8; 20])
             // an immutable value whose hash is the target cannot be chosen; announce_peer takes any target
             net.sim.call_put(n, PutRequestSpecific::AnnouncePeer(v::AnnouncePeerRequestArguments { info_hash: dht::Id::from(target), port: 1, implied_port: None }), None, "l")
         }
+        "immutable" => net.sim.call_get(n, GetKind::Immutable, target, "l"),
+        "mutable" => net.sim.call_get(n, GetKind::Mutable { salt: None, seq: None }, target, "l"),
+        "mutable_seq" => net.sim.call_get(n, GetKind::Mutable { salt: None, seq: Some(5) }, target, "l"),
+        "signed_peers" => net.sim.call_get(n, GetKind::SignedPeers, target, "l"),
         _ => net.sim.call_get(n, GetKind::Peers, target, "l"),
     };
     net.sim.poke(n);
@@ -101,6 +106,12 @@ fn crafted(b: &mut u64, seed: u64, out: &mut Out, rng: &mut Rng, rounds: u64) {
                 id
             })
             .collect();
+        // distinct nodes have distinct ids (a 160-bit collision is not a realistic input)
+        let mut ids = ids;
+        ids.sort();
+        ids.dedup();
+        rng.shuffle(&mut ids);
+        let n = ids.len();
         let mut sim = Sim::new(seed ^ (r * 31 + 5), NetCfg { lat_min_ms: 5, lat_max_ms: 25, ..Default::default() });
         sim.record = true;
         let fnet = FakeNet::install(&mut sim, &ids, Box::new(|_, _, _| Reply::Default));
@@ -117,6 +128,82 @@ fn crafted(b: &mut u64, seed: u64, out: &mut Out, rng: &mut Rng, rounds: u64) {
             out.line(&ev);
             *b += 1;
         }
+    }
+}
+
+/// One real client among fake peers that form a CHAIN towards the target: a peer only lists the few peers just closer than
+/// itself, in every kind of answer a lookup can receive (nodes only, no value, a value, "no more recent value", peers), so
+/// reaching the closest peers depends on merging the `nodes` of each answer kind.  Requests for other targets (the client's
+/// own bootstrap) only ever learn the three farthest peers.
+fn chain(b: &mut u64, seed: u64, out: &mut Out, rng: &mut Rng, rounds: u64) {
+    use crate::bencode::B;
+    use crate::crypto;
+    use crate::fakenet::*;
+    use crate::krpc;
+    use crate::sim::*;
+    const KINDS: [&str; 7] = ["mutable_seq", "mutable", "immutable", "peers", "find_node", "closest", "signed_peers"];
+    for r in 0..rounds {
+        let kind = KINDS[r as usize % KINDS.len()];
+        let val = format!("chain value {r}").into_bytes();
+        let sk = crypto::keypair(9);
+        let pk = sk.verifying_key().to_bytes();
+        let target = match kind {
+            "immutable" => crypto::immutable_target(&val),
+            "mutable" | "mutable_seq" => crypto::mutable_target(&pk, None),
+            _ => rng.id(),
+        };
+        let n = rng.range(6, 36) as usize;
+        let w = 1 + rng.below(3) as usize;
+        // rank i shares 16 + 4*i leading bits with the target and differs at the next one: strictly decreasing distance
+        let ids: Vec<[u8; 20]> = (0..n)
+            .map(|i| {
+                let p = 16 + 4 * i;
+                let mut id = rng.id();
+                for bit in 0..p {
+                    let (by, m) = (bit / 8, 0x80u8 >> (bit % 8));
+                    id[by] = (id[by] & !m) | (target[by] & m);
+                }
+                let (by, m) = (p / 8, 0x80u8 >> (p % 8));
+                id[by] = (id[by] & !m) | (!target[by] & m);
+                id
+            })
+            .collect();
+        let mut sim = Sim::new(seed ^ (r * 37 + 11), NetCfg { lat_min_ms: 5, lat_max_ms: 25, ..Default::default() });
+        sim.record = true;
+        let all: Vec<([u8; 20], SocketAddrV4)> = ids.iter().enumerate().map(|(i, id)| (*id, SocketAddrV4::new(fake_ip(i), 6881))).collect();
+        let (val2, sk2) = (val.clone(), sk.clone());
+        let policy: Policy = Box::new(move |me, m, wi| {
+            let q = m.q.clone().unwrap_or_default();
+            let on_target = m.target() == Some(target);
+            let listed: Vec<([u8; 20], SocketAddrV4)> = if on_target {
+                all.iter().skip(me.idx + 1).take(w).cloned().collect()
+            } else {
+                all.iter().take(3).cloned().collect()
+            };
+            let nodes = krpc::compact_nodes(&listed);
+            let b = match q.as_str() {
+                "find_node" => lookup_reply(&nodes, me, m, wi, &[], false),
+                "get" if on_target && m.arg_int("seq").is_some() => lookup_reply(&nodes, me, m, wi, &[("seq", B::Int(5))], true),
+                "get" if on_target && target == crypto::immutable_target(&val2) => lookup_reply(&nodes, me, m, wi, &[("v", B::bytes(&val2))], true),
+                "get" if on_target && target == crypto::mutable_target(&pk, None) => {
+                    let sig = crypto::sign_mutable(&sk2, 5, &val2, None);
+                    lookup_reply(&nodes, me, m, wi, &[("v", B::bytes(&val2)), ("k", B::bytes(&pk[..])), ("seq", B::Int(5)), ("sig", B::bytes(&sig[..]))], true)
+                }
+                "get_peers" if on_target && me.idx % 2 == 0 => {
+                    lookup_reply(&nodes, me, m, wi, &[("values", B::List(vec![B::bytes(&[10, 1, 2, me.idx as u8, 0x1a, 0xe1][..])]))], true)
+                }
+                "get" | "get_peers" | "get_signed_peers" => lookup_reply(&nodes, me, m, wi, &[], true),
+                _ => krpc::response(&m.tid, &me.id, B::dict(), Some(&wi.from)),
+            };
+            Reply::One(b, 10)
+        });
+        let fnet = FakeNet::install(&mut sim, &ids, policy);
+        let c = sim.add_node(NodeOpts::client(private_ip(3), &[fnet.bootstrap()[0].clone()]));
+        sim.run_for(2500);
+        let mut net = Net { sim, servers: vec![], clients: vec![c], boot: vec![], spec: NetSpec { servers: n, clients: 1, plan: "private".into(), join: "chain".into(), dead_bootstrap: 0, seed } };
+        let ev = one_lookup(&mut net, *b, c, kind, target);
+        out.line(&ev);
+        *b += 1;
     }
 }
 
@@ -171,6 +258,7 @@ pub fn run(args: &Args) -> i32 {
     }
     if only.is_none() {
         crafted(&mut b, seed, &mut out, &mut rng, if thorough { 60 } else { 10 });
+        chain(&mut b, seed, &mut out, &mut rng, if thorough { 140 } else { 28 });
     }
     out.finish();
     if let Some(p) = args.get("summary") {
